@@ -4,7 +4,7 @@
    operations are regenerated from /repo on every run (Gen/SectorCerts*.v, Gen/Groups.v). *)
 From Coq Require Import Reals ZArith QArith List String Bool Lra.
 From Verif Require Import Scalar RInst KField KtoR KSign QuatKernels Quat QuatAlg GroupK Groups SymDot SymDotR SymDotK
-  SectorModel CoverCheck CoverSound SectorCertsAll
+  SectorModel CoverCheck CoverSound ExistSound SectorCertsAll
   SectorCerts00 SectorCertsOK00 SectorCerts01 SectorCertsOK01 SectorCerts02 SectorCertsOK02 SectorCerts03 SectorCertsOK03
   SectorCerts04 SectorCertsOK04 SectorCerts05 SectorCertsOK05 SectorCerts06 SectorCertsOK06 SectorCerts07 SectorCertsOK07.
 Import ListNotations.
@@ -64,11 +64,92 @@ Lemma sector_identity_first sc : In sc (List.concat all_sector_certs) ->
 Proof.
   intros H. apply sc_ok_of in H. unfold sc_ok in H.
   apply andb_prop in H. destruct H as [H _]. apply andb_prop in H. destruct H as [H _].
+  apply andb_prop in H. destruct H as [H _]. apply andb_prop in H. destruct H as [H _].
   apply andb_prop in H. destruct H as [H _]. unfold sc_ops. unfold identity_first in H.
   destruct (subject_ops (sc_name sc) (sc_laue sc)) as [|[q i] rest]; [discriminate|].
   exists (q, i), rest. split; [reflexivity|]. cbn [fst snd] in H. apply andb_prop in H. destruct H as [Hq Hi].
   apply kq_eqb_sound in Hq. unfold rtoR; cbn [fst snd]. rewrite Hq. destruct i; [discriminate|].
   unfold qone, qtoR. cbn [KOps o_ofZ]. rewrite !toR_ofZ. reflexivity.
+Qed.
+
+(* 3. exactly one: if two operations both map a direction strictly inside the sector, they are the same operation
+   (same improper flag, quaternions equal up to the overall sign) *)
+Lemma sc_group_facts sc : In sc (List.concat all_sector_certs) ->
+  kunit (sc_ops sc) = true /\ kclosed (sc_ops sc) = true /\ kinv_closed (sc_ops sc) = true.
+Proof.
+  intros H. apply sc_ok_of in H. unfold sc_ok in H. fold (sc_ops sc) in H.
+  apply andb_prop in H. destruct H as [H _]. apply andb_prop in H. destruct H as [H _].
+  apply andb_prop in H. destruct H as [H Hi]. apply andb_prop in H. destruct H as [H Hc].
+  apply andb_prop in H. destruct H as [_ Hu]. auto.
+Qed.
+
+Lemma kunit_sound G r : kunit G = true -> In r G -> qnorm2 ROps (fst (rtoR r)) = 1.
+Proof.
+  unfold kunit. intros H Hr. rewrite forallb_forall in H. specialize (H r Hr). apply Keqb_sound in H.
+  destruct r as [[[[a b] c] d] i]. unfold rtoR, qtoR, qnorm2 in *; cbn [fst snd] in *.
+  cbn [KOps o_add o_mul] in H. rewrite !toR_add, !toR_mul, toR_K1 in H. rsimpl. exact H.
+Qed.
+
+Lemma rtoR_kmul r s : rtoR (kmul r s) = rmul ROps (rtoR r) (rtoR s).
+Proof. destruct r as [p i], s as [q j]. unfold kmul, rmul, rtoR; cbn [fst snd]. rewrite qtoR_mul. reflexivity. Qed.
+Lemma rtoR_kinv r : rtoR (kinv r) = rinv ROps (rtoR r).
+Proof. destruct r as [p i]. unfold kinv, rinv, rtoR; cbn [fst snd]. rewrite qtoR_conj. reflexivity. Qed.
+
+Lemma ract_req (u v : rot (T:=R)) (x : Rv) : req u v -> ract ROps u x = ract ROps v x.
+Proof.
+  destruct u as [p i], v as [q j]. unfold req, ract; cbn [fst snd]. intros [-> [->| ->]]; rewrite ?qrot_neg; reflexivity.
+Qed.
+
+Lemma unit_quot (qs qr : quat (T:=R)) : qnorm2 ROps qr = 1 ->
+  qmul ROps qs (qconj ROps qr) = qone ROps \/ qmul ROps qs (qconj ROps qr) = qneg ROps (qone ROps) ->
+  qs = qr \/ qs = qneg ROps qr.
+Proof.
+  intros U H.
+  assert (E : qs = qmul ROps (qmul ROps qs (qconj ROps qr)) qr).
+  { rewrite qmul_assoc, qmul_conj_l, U.
+    replace (qscale ROps 1 (qone ROps)) with (qone ROps) by (unfold qscale, qone; rsimpl; tuple_eq; ring).
+    rewrite qmul_one_r. reflexivity. }
+  destruct H as [H|H]; rewrite H in E; [left|right]; rewrite E.
+  - apply qmul_one_l.
+  - rewrite qmul_neg_l, qmul_one_l. reflexivity.
+Qed.
+
+Theorem sector_unique_operation sc : In sc (List.concat all_sector_certs) ->
+  forall (x : Rv) r s, In r (sc_ops sc) -> In s (sc_ops sc) ->
+  in_open_cone (sc_N sc) (ract ROps (rtoR r) x) -> in_open_cone (sc_N sc) (ract ROps (rtoR s) x) ->
+  req (rtoR s) (rtoR r).
+Proof.
+  intros Hsc x r s Hr Hs Or Os.
+  destruct (sc_group_facts sc Hsc) as [Hu [Hc Hi]].
+  pose proof (kunit_sound _ r Hu Hr) as Ur. pose proof (kunit_sound _ s Hu Hs) as Us.
+  (* t ~ s * r^-1 is a listed operation *)
+  unfold kinv_closed in Hi. rewrite forallb_forall in Hi. specialize (Hi r Hr).
+  unfold kmem in Hi. apply existsb_exists in Hi. destruct Hi as [ri [Hri Eri]].
+  unfold kclosed in Hc. rewrite forallb_forall in Hc. specialize (Hc s Hs). rewrite forallb_forall in Hc. specialize (Hc ri Hri).
+  unfold kmem in Hc. apply existsb_exists in Hc. destruct Hc as [t [Ht Et]].
+  apply kr_eqb_sound in Eri, Et. rewrite rtoR_kinv in Eri. rewrite rtoR_kmul in Et.
+  pose proof (kunit_sound _ ri Hu Hri) as Uri.
+  (* its action on y = r x is s x *)
+  set (y := ract ROps (rtoR r) x) in *.
+  assert (Ey : ract ROps (rtoR t) y = ract ROps (rtoR s) x).
+  { rewrite <- (ract_req _ _ y Et). rewrite ract_mul by assumption.
+    rewrite <- (ract_req _ _ y Eri). unfold y. rewrite ract_inv by assumption. reflexivity. }
+  (* t is the first operation (the identity), otherwise the sectors overlap *)
+  destruct (sector_identity_first sc Hsc) as [e [rest [Eops Ee]]].
+  rewrite Eops in Ht. destruct Ht as [<-|Htl].
+  - (* s * ri = +-1 as rotations, hence s = +- r *)
+    rewrite Ee in Et. destruct Et as [Fl Q]. destruct Eri as [Fl' Q'].
+    destruct (rtoR s) as [qs fs], (rtoR r) as [qr fr], (rtoR ri) as [qi fi]. cbn [fst snd rmul rinv] in *.
+    split.
+    + destruct fs, fi, fr; cbn in *; congruence.
+    + apply (unit_quot qs qr Ur).
+      destruct Q' as [E|E].
+      * rewrite E. exact Q.
+      * assert (E2 : qi = qneg ROps (qconj ROps qr)) by (rewrite E, qneg_invol; reflexivity).
+        rewrite E2, qmul_neg_r in Q. destruct Q as [Q|Q]; [right|left].
+        { rewrite <- Q, qneg_invol. reflexivity. }
+        { rewrite <- (qneg_invol (qmul ROps qs (qconj ROps qr))), Q, qneg_invol. reflexivity. }
+  - exfalso. apply (sector_no_overlap sc Hsc y Or t); [rewrite Eops; exact Htl|]. rewrite Ey. exact Os.
 Qed.
 
 (* the closed-cone test implies the code's tolerance test for every positive tolerance *)
